@@ -102,9 +102,9 @@ def axiom_audit(prop, files=None):
     rc, out, err = sh(['lake', 'env', 'lean', audit], cwd=LEAN, timeout=1800)
     res = {}
     text = out + err
-    for m in re.finditer(r"'([^']+)' depends on axioms: \[([^\]]*)\]", text, flags=re.S):
+    for m in re.finditer(r"'(\S+?)' depends on axioms: \[([^\]]*)\]", text, flags=re.S):
         res[m.group(1)] = [a.strip() for a in m.group(2).replace('\n', ' ').split(',') if a.strip()]
-    for m in re.finditer(r"'([^']+)' does not depend on any axioms", text):
+    for m in re.finditer(r"'(\S+?)' does not depend on any axioms", text):
         res[m.group(1)] = []
     bad = []
     for n in names:
